@@ -21,6 +21,8 @@
                                       st = SignatureType present, KeyLocator name, widths of
                                       SignatureNonce / SignatureTime / SignatureSeqNum (0 absent)
      vp      BOOLEAN                  certificate ValidityPeriod (two 15-byte instants) present
+     rep     [name, fh, kl, fbi, pay] (C01/C02 configurations only) the Python representation in which the caller
+                                      hands over each name-valued / octet-string parameter: see "representations"
 
    element  [t, len, leaf, kids]      len = exact value length; Size = |T| + |L| + len
    layout   Flat(tree): pre-order list of [d, t, off, hdr, len] with absolute byte offsets - the
@@ -95,6 +97,50 @@ BadPd(c) == \E i \in PdIdx(c.name) : c.name[i].l # 32
 RefusesName(c) == IsInterest(c) /\ ((~NeedDigest(c) /\ PdIdx(c.name) # {}) \/ Cardinality(PdIdx(c.name)) > 1 \/ BadPd(c))
 RefusesShrink(c) == Signed(c) /\ c.sg.a < c.sg.r /\ c.sg.r >= 253
 Refuses(c) == RefusesName(c) \/ RefusesShrink(c)
+
+\* ---------------------------------------------------------------- representations of the parameters
+(* Every NAME-VALUED parameter of make_interest / make_data - the packet name, each ForwardingHint delegation, the
+   KeyLocator name a signer was constructed with - is a NonStrictName (Name.normalize, tlv_model.NameField):
+     box "uri"                         one URI string
+     box "wire" "wirebuf" "wireview"   the encoded Name element as bytes / bytearray / memoryview
+     box "list" "tuple" "iter"         a list / a tuple / a one-shot iterator of components, each component given as
+                                       item "bytes" (encoded), "views" (memoryview of a bytearray), "strs" (the URI text of
+                                       the component) or "mixed" (odd positions text, even positions encoded)
+   and denotes the same sequence of components in every one of them, WHATEVER THE NUMBER OF COMPONENTS: the type of the
+   container and the count of its items carry no meaning.  In particular a tuple of exactly two components is a name of two
+   components - not a (preference, name) delegation of the 0.2 packet format - and an empty tuple is the empty name.
+   The octet-string parameters (FinalBlockId, Content, ApplicationParameters) are BinaryStr: bytes / bytearray / memoryview.
+     cfg.rep = [name |-> form, fh |-> <<form, ...>>, kl |-> form, fbi |-> bin, pay |-> bin]
+     form    = [box, item] (item "none" for the boxes without items);  AnyForm / "any": not fixed by the configuration - the
+               executor rotates through every form, so that each configuration is sooner or later built from each
+     delegation i is given in form rep.fh[i]; AnyForm beyond Len(rep.fh)
+   Arg(form, comps) is the argument value as far as the library can tell representations apart (Python type of the container
+   and of every item); Denotes is the reference for Name.normalize on it.  Bytes are not modelled: that the URI text / the wire
+   encoding of a component reads back as that component is C09's / C08's subject.                                       *)
+AnyForm == [box |-> "any", item |-> "any"]
+SeqBoxes == {"list", "tuple", "iter"}
+FlatBoxes == {"uri", "wire", "wirebuf", "wireview"}
+ItemKinds == {"bytes", "views", "strs", "mixed"}
+NameForms == { [box |-> b, item |-> i] : b \in SeqBoxes, i \in ItemKinds } \cup { [box |-> b, item |-> "none"] : b \in FlatBoxes }
+BinForms == {"bytes", "bytearray", "memoryview"}
+Pinned(f) == f # AnyForm
+FormAt(fs, i) == IF i <= Len(fs) THEN fs[i] ELSE AnyForm
+
+ItemPy(item, i) == IF item = "bytes" THEN "bytes" ELSE IF item = "views" THEN "memoryview" ELSE IF item = "strs" THEN "str"
+                   ELSE IF i % 2 = 1 THEN "str" ELSE "bytes"
+FlatPy(box) == IF box = "uri" THEN "str" ELSE IF box = "wire" THEN "bytes" ELSE IF box = "wirebuf" THEN "bytearray" ELSE "memoryview"
+Arg(f, cs) == IF f.box \in SeqBoxes
+              THEN [py |-> f.box, items |-> [i \in 1..Len(cs) |-> [py |-> ItemPy(f.item, i), c |-> cs[i]]], whole |-> <<>>]
+              ELSE [py |-> FlatPy(f.box), items |-> <<>>, whole |-> cs]
+\* Name.normalize: a str is parsed as a URI, a binary string is decoded as a Name element, anything else is iterated and every
+\* item taken as one component (a str item parsed as the URI text of a component, a binary item as its encoding)
+Denotes(a) == IF a.py \in {"str", "bytes", "bytearray", "memoryview"} THEN a.whole
+              ELSE [i \in 1..Len(a.items) |-> a.items[i].c]
+Given(f, cs) == IF Pinned(f) THEN Denotes(Arg(f, cs)) ELSE cs
+RepOK(c) ==
+  /\ c.rep.name \in NameForms \cup {AnyForm} /\ c.rep.kl \in NameForms \cup {AnyForm}
+  /\ Len(c.rep.fh) <= Len(c.fh) /\ \A i \in 1..Len(c.rep.fh) : c.rep.fh[i] \in NameForms \cup {AnyForm}
+  /\ c.rep.fbi \in BinForms \cup {"any"} /\ c.rep.pay \in BinForms \cup {"any"}
 
 \* ---------------------------------------------------------------- expected trees
 SigInfoKids(c) ==
@@ -372,6 +418,28 @@ LawParseBack(c) ==
         /\ \A i \in FindT(F, TContent) : F.kids[i].len = c.content)
   /\ (Signed(c) <=> FindT(F, IF IsInterest(c) THEN TISigValue ELSE TSigValue) # {})
   /\ (Signed(c) => F.kids[Len(F.kids)].len = c.sg.a)
+
+\* every name position of the emitted tree carries exactly the components its argument denotes, in whatever
+\* representation and with whatever number of components and of delegations the argument came
+LawForms(c) ==
+  LET F == Final(c)
+      nm == Given(c.rep.name, c.name)
+      sit == IF IsInterest(c) THEN TISigInfo ELSE TSigInfo IN
+  /\ RepOK(c)
+  /\ CompsOf(F.kids[1]) = (IF NeedDigest(c) /\ PdIdx(nm) = {} THEN Append(nm, [t |-> TParamsDigest, l |-> 32]) ELSE nm)
+  /\ (IsInterest(c) =>
+        /\ (FindT(F, TFwdHint) # {} <=> Len(c.fh) > 0)
+        /\ \A k \in FindT(F, TFwdHint) :
+             /\ Len(F.kids[k].kids) = Len(c.fh)
+             /\ \A i \in 1..Len(c.fh) : /\ F.kids[k].kids[i].t = TName
+                                        /\ CompsOf(F.kids[k].kids[i]) = Given(FormAt(c.rep.fh, i), c.fh[i]))
+  /\ (Signed(c) /\ c.sg.haskl =>
+        /\ FindT(F, sit) # {}
+        /\ \A k \in FindT(F, sit) :
+             /\ Cardinality(FindT(F.kids[k], TKeyLocator)) = 1
+             /\ \A j \in FindT(F.kids[k], TKeyLocator) :
+                  /\ Len(F.kids[k].kids[j].kids) = 1 /\ F.kids[k].kids[j].kids[1].t = TName
+                  /\ CompsOf(F.kids[k].kids[j].kids[1]) = Given(c.rep.kl, c.sg.kl))
 
 Inside(a, b) == b.lo <= a.lo /\ a.hi <= b.hi
 Overlap(a, b) == a.lo < b.hi /\ b.lo < a.hi
